@@ -32,6 +32,9 @@ pub enum Event {
     },
     /// outcome of a GC attempt: 0 = NoReplace, 1 = Replace, 2 = Aborted
     GcRestore { kind: u8 },
+    /// `new_substr` of an inline (small) atom had to copy `len` bytes onto the
+    /// heap because the substring is not itself a canonical small integer
+    InlineSubstrCopy { len: usize },
 }
 
 thread_local! {
